@@ -387,6 +387,9 @@ class SAMIWriter(BaseWriter):
         self.last_time = None
 
     def write(self, caption_set):
+        # A span left open by an earlier write (unbalanced style nodes) must
+        # not leak a stray closing tag into this document
+        self.open_span = False
         caption_set = deepcopy(caption_set)
         sami = BeautifulSoup(SAMI_BASE_MARKUP, "lxml-xml")
 
